@@ -33,11 +33,82 @@ def canary_request(method, path, field, decor_name, canary):
     return ser(method, target, hs, body), ser(method, ptarget, plain, pbody)
 
 
+def slow_readers(c, t, rng):
+    import socket, time, hashlib
+    c.need("slow reader received a large body")
+    sizes = [65536, 300001, 1 << 20] + ([] if c.quick else [4 << 20])
+    files = {}
+    for n in sizes:
+        name = "/slow%d.bin" % n
+        t.add_file(name, rng.bytes(n))
+        files[name] = t.files[name]
+    srv = server.Server(t.root, threads=2)
+    try:
+        if not srv.started:
+            c.inconc("server did not start")
+            return
+        for name, data in files.items():
+            L = len(data)
+            for hdr, want_status in ((None, 200), ("bytes=0-", 206), ("bytes=1-%d" % (L - 2), 206), ("bytes=0-9, %d-%d, 5-5" % (L // 2, L - 1), 206)):
+                raw = ("GET %s HTTP/1.1\r\nHost: x\r\n%s\r\n" % (name, ("Range: %s\r\n" % hdr) if hdr else "")).encode()
+                s = socket.socket()
+                s.setsockopt(socket.SOL_SOCKET, socket.SO_RCVBUF, 2048)
+                s.settimeout(30)
+                buf, end = b"", "eof"
+                try:
+                    s.connect((srv.ip, srv.port))
+                    s.sendall(raw)
+                    k = 0
+                    while True:
+                        ch = s.recv(rng.choice([1, 100, 1500, 4096, 65536]))
+                        if not ch:
+                            break
+                        buf += ch
+                        k += 1
+                        if k % 40 == 0:
+                            time.sleep(0.002)
+                except socket.timeout:
+                    end = "timeout"
+                except OSError:
+                    end = "reset"
+                finally:
+                    s.close()
+                c.ev()
+                c.cls("slow-reader", L, "whole" if not hdr else ("multi" if "," in hdr else "single"))
+                r = httpstrict.parse(buf)
+                rp = {"file": name, "size": L, "range": hdr, "received": len(buf), "end": end, "response_head": buf[:300].decode("latin-1")}
+                cl = r.get("content-length")
+                if end == "timeout" and not buf:
+                    c.inconc("slow reader: no byte within 30 s")
+                    continue
+                if r.status != want_status:
+                    c.count("slow_reader_status_%s_not_judged_here" % r.status)
+                    continue
+                if hdr and "," in hdr:
+                    # no Content-Length on a multipart body: complete = the three parts and the final delimiter are there
+                    ps, errs = httpstrict.multipart_byteranges(r.body, r.get("content-type") or "")
+                    if errs or len(ps) != 3 or any(pp.errors for pp in ps):
+                        c.violation("C05:delivery:truncated-for-slow-reader:multi", "a reader with a small receive window got %d bytes of a three-part body that does not parse to its end: %s" % (len(r.body), (errs or [pp.errors for pp in ps])[:2]), rp)
+                    else:
+                        c.seen("slow reader received a large body")
+                    continue
+                if cl is None or not cl.isdigit() or int(cl) != len(r.body):
+                    c.violation("C05:delivery:truncated-for-slow-reader:%s" % ("whole" if not hdr else ("multi" if "," in hdr else "single")),
+                                "a reader with a small receive window got %d body bytes of the %s announced (connection ended with %s)" % (len(r.body), cl, end), rp)
+                    continue
+                if not hdr and r.body != data:
+                    c.violation("C05:delivery:wrong-bytes-for-slow-reader", "the body received by a slow reader differs from the file (sha %s vs %s)" % (hashlib.sha256(r.body).hexdigest()[:12], hashlib.sha256(data).hexdigest()[:12]), rp)
+                    continue
+                c.seen("slow reader received a large body")
+    finally:
+        srv.cleanup()
+
+
 def run(c):
     c.rule = ("(1) every response to the C04 input space (all methods, routes, error paths, both entry points, real binary) goes through an independent strict HTTP/1.1 parser with framing rules; "
               "(2) reflection: a unique canary decorated with CR / LF / CRLF / NUL / ':' / ': ' / U+2028 / 'CRLF header' in Origin, Access-Control-Request-*, Range, Content-Type, Host, target and body must not change the "
               "set of response header names nor start a line; (3) delivery: short-write scripts (constant chunk 1..64, first call accepts j bytes for every j over the head) must deliver the same bytes as an accept-all "
-              "transport. Class = (status, route, method, decoration kind, script kind); non-trivial = decorated or short-write.")
+              "transport; on the real binary a reader with a 2 KiB receive window that pauses between reads must receive bodies of 64 KiB .. 4 MiB in full. Class = (status, route, method, decoration kind, script kind); non-trivial = decorated or short-write.")
     rng = c.rng
     t = treegen.generate(rng.fork("tree"), depth=2, tag="c05")
     for m in reqgen.METHODS:
@@ -109,6 +180,10 @@ def run(c):
         finally:
             if srv:
                 srv.cleanup()
+
+        # ---- (3b) delivery over a real socket that accepts the response in pieces: a reader with a 2 KiB receive
+        # buffer that pauses between reads, for bodies of 64 KiB .. 4 MiB (whole file, single range, several ranges)
+        slow_readers(c, t, rng)
 
         # ---- (2) reflection
         work = []
